@@ -133,12 +133,30 @@ class World(object):
                 return world._new_msg(target, method, cd, kw, sync)
 
             def sync_call(self, ctx, method, target=None, **kwargs):
+                # a synchronous call is served by a thread of the receiving server while the caller
+                # waits: run the delivery in a helper thread (own thread-locals: auth context,
+                # post-commit queue), never inside the caller's stack
                 m = self._mk(ctx, method, True, kwargs)
-                saved = auth_context.ctx() if auth_context.has_ctx() else None
-                try:
-                    return world._deliver(m, nested=True)
-                finally:
-                    auth_context.set_ctx(saved)
+                box = {}
+
+                def serve():
+                    try:
+                        box['r'] = world._deliver(m, nested=True)
+                    except BaseException as e:   # noqa
+                        box['e'] = e
+                    finally:
+                        auth_context.set_ctx(None)
+
+                if _in_tx():
+                    raise RuntimeError('synchronous RPC issued inside an open transaction')
+                th = threading.Thread(target=serve, daemon=True)
+                th.start()
+                th.join(60)
+                if th.is_alive():
+                    raise RuntimeError('nested synchronous delivery did not finish')
+                if 'e' in box:
+                    raise box['e']
+                return box.get('r')
 
             def async_call(self, ctx, method, target=None, fanout=False, **kwargs):
                 self._mk(ctx, method, False, kwargs)
